@@ -91,6 +91,8 @@ def self_validate(pid: str, mod, model: Model, rep: Report) -> None:
                 detected += 1
             elif verdict == "analysis-error":
                 closed += 1
+                print(f"  selftest: mutant '{name}' fails closed: "
+                      f"{detail[0][:160] if detail else ''}")
             else:
                 missed += 1
                 print(f"SELFTEST-MISS {pid}: mutant '{name}' not detected")
